@@ -1,14 +1,17 @@
 --------------------------------- MODULE Ip ---------------------------------
-(* ip("...") filters on IPv4 (C01 / C19).  Anchors: internal/logql/logqlengine/{ip_matcher,line_filter,label_filter}.go.
-   An address is <<a, b, c, d>> with octets 0..255.  A pattern is
-     [k |-> "addr", lo |-> A, hi |-> A, bits |-> 32]      ip("10.0.0.1")
-     [k |-> "range", lo |-> A, hi |-> B, bits |-> 0]      ip("10.0.0.1-10.0.0.9")   both ends included
-     [k |-> "cidr", lo |-> A, hi |-> A, bits |-> n]       ip("10.0.0.5/8")          the address need not be masked
-   The line scanner (IPLineFilter) is transcribed for lines WITHOUT a colon and without the letters a-f / A-F: on those
-   the IPv6 branch never captures and the scan is: at a digit followed within three bytes by a dot, take the maximal
-   run of digits and dots as a candidate and continue behind it; otherwise advance by one byte.  Everything else
-   (IPv6 patterns and texts) is outside the modelled grammar. *)
-EXTENDS Integers, Sequences, Num
+(* ip("...") filters on IPv4 and IPv6 (C01 / C19).  Anchors: internal/logql/logqlengine/{ip_matcher,line_filter,label_filter}.go.
+   An address is a sequence of 4 octets (0..255) or of 8 groups (0..65535).  A pattern is
+     [k |-> "addr", lo |-> A, hi |-> A, bits |-> 32 | 128]   ip("10.0.0.1")   ip("2001:db8::1")
+     [k |-> "range", lo |-> A, hi |-> B, bits |-> 0]         ip("10.0.0.1-10.0.0.9")   both ends included, one family
+     [k |-> "cidr", lo |-> A, hi |-> A, bits |-> n]          ip("10.0.0.5/8")  ip("fe80::/10")   the address need not be masked
+   A pattern of one family accepts no address of the other.  Texts are PARSED (ParseIP, ParsePat: transcriptions of
+   netip.ParseAddr / ParsePrefix and netipx.ParseIPRange on texts without '%' and without an IPv4 tail inside an IPv6
+   address), so every spelling of an IPv6 address - upper case, leading zeros, uncompressed zero groups - denotes its
+   address.  The line scanner (IPLineFilter.match) is transcribed as it is: at a digit followed within three bytes by a
+   dot the maximal run of digits and dots is a candidate; otherwise at "::" or at a hexadecimal digit with a colon
+   anywhere behind it in the line the maximal run of hexadecimal digits and colons is one; the scan continues behind a
+   candidate, otherwise one byte further. *)
+EXTENDS Integers, Sequences, FiniteSets, Num
 
 \* ---- netip.ParseAddr on IPv4 text: exactly four decimal fields of 1-3 digits, no leading zero, each <= 255
 RECURSIVE SplitDots(_, _, _)
@@ -25,17 +28,51 @@ ParseIPv4(s) == LET fs == SplitDots(s, 1, <<>>) IN
                   THEN [ok |-> TRUE, a |-> [k \in 1..4 |-> OctetVal(fs[k])]]
                   ELSE [ok |-> FALSE, a |-> <<0, 0, 0, 0>>]
 
-\* ---- matchers
+\* ---- netip.ParseAddr on IPv6 text (hexadecimal digits and colons only)
+IsHexDig(c) == IsDig(c) \/ (c >= 65 /\ c <= 70) \/ (c >= 97 /\ c <= 102)
+HexVal(c) == IF IsDig(c) THEN c - 48 ELSE IF c >= 97 THEN c - 87 ELSE c - 55
+RECURSIVE SplitColons(_, _, _)
+SplitColons(s, i, cur) == IF i > Len(s) THEN <<cur>>
+                          ELSE IF s[i] = 58 THEN <<cur>> \o SplitColons(s, i + 1, <<>>)
+                          ELSE SplitColons(s, i + 1, Append(cur, s[i]))
+GroupOk(f) == Len(f) \in 1..4 /\ \A k \in DOMAIN f : IsHexDig(f[k])
+RECURSIVE GroupVal(_)
+GroupVal(f) == IF f = <<>> THEN 0 ELSE GroupVal(SubSeq(f, 1, Len(f) - 1)) * 16 + HexVal(f[Len(f)])
+FieldsOf(s) == IF s = <<>> THEN <<>> ELSE SplitColons(s, 1, <<>>)
+NoAddr6 == [ok |-> FALSE, a |-> <<0, 0, 0, 0, 0, 0, 0, 0>>]
+ParseIPv6(s) ==
+  LET dbl == {k \in 1..(Len(s) - 1) : s[k] = 58 /\ s[k + 1] = 58} IN
+  IF Cardinality(dbl) > 1 THEN NoAddr6                          \* two "::" (":::" counts twice)
+  ELSE IF dbl = {} THEN LET fs == FieldsOf(s) IN
+       IF Len(fs) = 8 /\ \A k \in 1..8 : GroupOk(fs[k]) THEN [ok |-> TRUE, a |-> [k \in 1..8 |-> GroupVal(fs[k])]] ELSE NoAddr6
+  ELSE LET at == CHOOSE k \in dbl : TRUE
+           ls == FieldsOf(SubSeq(s, 1, at - 1))
+           rs == FieldsOf(SubSeq(s, at + 2, Len(s)))
+           nz == 8 - Len(ls) - Len(rs)
+       IN IF nz >= 1 /\ (\A k \in DOMAIN ls : GroupOk(ls[k])) /\ (\A k \in DOMAIN rs : GroupOk(rs[k]))
+            THEN [ok |-> TRUE, a |-> [k \in 1..8 |-> IF k <= Len(ls) THEN GroupVal(ls[k]) ELSE IF k <= Len(ls) + nz THEN 0 ELSE GroupVal(rs[k - Len(ls) - nz])]]
+            ELSE NoAddr6
+\* netip.ParseAddr: the first '.' or ':' decides the family; a text with neither is no address.
+\* `open`: texts this transcription does not cover (a zone, an IPv4 tail inside an IPv6 address)
+HasByte(s, c) == \E i \in DOMAIN s : s[i] = c
+ParseIP(s) == IF HasByte(s, 37) \/ (HasByte(s, 46) /\ HasByte(s, 58)) THEN [ok |-> FALSE, open |-> TRUE, a |-> <<0, 0, 0, 0>>]
+              ELSE IF HasByte(s, 58) THEN LET r == ParseIPv6(s) IN [ok |-> r.ok, open |-> FALSE, a |-> r.a]
+              ELSE IF HasByte(s, 46) THEN LET r == ParseIPv4(s) IN [ok |-> r.ok, open |-> FALSE, a |-> r.a]
+              ELSE [ok |-> FALSE, open |-> FALSE, a |-> <<0, 0, 0, 0>>]
+
+\* ---- matchers (an address of the other family is never accepted)
 AddrLeq(x, y) == \/ x = y
-                 \/ \E k \in 1..4 : (\A j \in 1..(k - 1) : x[j] = y[j]) /\ x[k] < y[k]
-Pow2(n) == CASE n = 0 -> 1 [] n = 1 -> 2 [] n = 2 -> 4 [] n = 3 -> 8 [] n = 4 -> 16 [] n = 5 -> 32 [] n = 6 -> 64 [] n = 7 -> 128 [] n = 8 -> 256
-\* the first `bits` bits agree
-SamePrefix(x, y, bits) == \A k \in 1..4 :
-                            LET nb == IF bits >= 8 * k THEN 8 ELSE IF bits <= 8 * (k - 1) THEN 0 ELSE bits - 8 * (k - 1)
-                            IN (x[k] \div Pow2(8 - nb)) = (y[k] \div Pow2(8 - nb))
-IpMatch(p, x) == CASE p.k = "addr" -> x = p.lo
-                   [] p.k = "range" -> AddrLeq(p.lo, x) /\ AddrLeq(x, p.hi)
-                   [] p.k = "cidr" -> SamePrefix(x, p.lo, p.bits)
+                 \/ \E k \in DOMAIN x : (\A j \in 1..(k - 1) : x[j] = y[j]) /\ x[k] < y[k]
+Pow2(n) == 2 ^ n
+\* the first `bits` bits agree (w: bits per element, 8 or 16)
+SamePrefix(x, y, bits) == LET w == IF Len(x) = 4 THEN 8 ELSE 16 IN
+                          \A k \in DOMAIN x :
+                            LET nb == IF bits >= w * k THEN w ELSE IF bits <= w * (k - 1) THEN 0 ELSE bits - w * (k - 1)
+                            IN (x[k] \div Pow2(w - nb)) = (y[k] \div Pow2(w - nb))
+IpMatch(p, x) == /\ Len(x) = Len(p.lo)
+                 /\ CASE p.k = "addr" -> x = p.lo
+                      [] p.k = "range" -> AddrLeq(p.lo, x) /\ AddrLeq(x, p.hi)
+                      [] p.k = "cidr" -> SamePrefix(x, p.lo, p.bits)
 
 \* ---- text of a pattern
 DecText(n) == IF n < 10 THEN <<48 + n>> ELSE IF n < 100 THEN <<48 + (n \div 10), 48 + (n % 10)>>
@@ -44,20 +81,41 @@ AddrText(x) == DecText(x[1]) \o <<46>> \o DecText(x[2]) \o <<46>> \o DecText(x[3
 IpPatText(p) == CASE p.k = "addr" -> AddrText(p.lo)
                   [] p.k = "range" -> AddrText(p.lo) \o <<45>> \o AddrText(p.hi)
                   [] p.k = "cidr" -> AddrText(p.lo) \o <<47>> \o DecText(p.bits)
-IpPatWellFormed(p) == /\ p.k \in {"addr", "range", "cidr"} /\ p.bits \in 0..32
-                      /\ \A k \in 1..4 : p.lo[k] \in 0..255 /\ p.hi[k] \in 0..255
+\* ---- the text of a pattern, parsed (netipx.ParseIPRange at a '-', netip.ParsePrefix at a '/', else netip.ParseAddr)
+FirstAt(s, c) == CHOOSE i \in DOMAIN s : s[i] = c /\ \A j \in 1..(i - 1) : s[j] # c
+LastAt(s, c) == CHOOSE i \in DOMAIN s : s[i] = c /\ \A j \in (i + 1)..Len(s) : s[j] # c
+BadPat == [k |-> "bad", lo |-> <<>>, hi |-> <<>>, bits |-> 0]
+RECURSIVE DecVal(_)
+DecVal(f) == IF f = <<>> THEN 0 ELSE DecVal(SubSeq(f, 1, Len(f) - 1)) * 10 + (f[Len(f)] - 48)
+ParsePat(s) ==
+  IF HasByte(s, 45) THEN
+       LET i == FirstAt(s, 45) f == ParseIP(SubSeq(s, 1, i - 1)) t == ParseIP(SubSeq(s, i + 1, Len(s))) IN
+       IF f.ok /\ t.ok /\ Len(f.a) = Len(t.a) /\ AddrLeq(f.a, t.a) THEN [k |-> "range", lo |-> f.a, hi |-> t.a, bits |-> 0] ELSE BadPat
+  ELSE IF HasByte(s, 47) THEN
+       LET i == LastAt(s, 47) a == ParseIP(SubSeq(s, 1, i - 1)) b == SubSeq(s, i + 1, Len(s)) IN
+       IF a.ok /\ Len(b) \in 1..3 /\ AllDigits(b) /\ (Len(b) > 1 => b[1] # 48) /\ DecVal(b) <= (IF Len(a.a) = 4 THEN 32 ELSE 128)
+         THEN [k |-> "cidr", lo |-> a.a, hi |-> a.a, bits |-> DecVal(b)] ELSE BadPat
+  ELSE LET a == ParseIP(s) IN IF a.ok THEN [k |-> "addr", lo |-> a.a, hi |-> a.a, bits |-> IF Len(a.a) = 4 THEN 32 ELSE 128] ELSE BadPat
+IpPatWellFormed(p) == /\ p.k \in {"addr", "range", "cidr"} /\ Len(p.lo) \in {4, 8} /\ Len(p.hi) = Len(p.lo)
+                      /\ p.bits \in 0..(IF Len(p.lo) = 4 THEN 32 ELSE 128)
+                      /\ \A k \in DOMAIN p.lo : p.lo[k] \in 0..(IF Len(p.lo) = 4 THEN 255 ELSE 65535) /\ p.hi[k] \in 0..(IF Len(p.lo) = 4 THEN 255 ELSE 65535)
                       /\ (p.k = "range" => AddrLeq(p.lo, p.hi))
+\* the pattern's text denotes the pattern (any spelling)
+IpPatDenotes(txt, p) == ParsePat(txt) = [k |-> p.k, lo |-> p.lo, hi |-> p.hi, bits |-> p.bits]
 
 \* ---- the line scanner
-IsHexLetter(c) == (c >= 65 /\ c <= 70) \/ (c >= 97 /\ c <= 102)
-IpScannable(s) == \A i \in DOMAIN s : s[i] # 58 /\ ~IsHexLetter(s[i])
+RECURSIVE HexEnd(_, _)
+HexEnd(s, i) == IF i <= Len(s) /\ (IsHexDig(s[i]) \/ s[i] = 58) THEN HexEnd(s, i + 1) ELSE i
 RECURSIVE Candidates(_, _)
 Candidates(s, i) ==
   IF i > Len(s) THEN <<>>
+  ELSE IF ~IsHexDig(s[i]) /\ s[i] # 58 THEN Candidates(s, i + 1)
   ELSE IF IsDig(s[i]) /\ Len(s) - i + 1 >= 4 /\ (s[i + 1] = 46 \/ s[i + 2] = 46 \/ s[i + 3] = 46)
     THEN LET j == NumEnd(s, i) IN <<SubSeq(s, i, j - 1)>> \o Candidates(s, j)
+  ELSE IF Len(s) - i + 1 >= 2 /\ (IF s[i] = 58 THEN s[i + 1] = 58 ELSE \E k \in (i + 1)..Len(s) : s[k] = 58)
+    THEN LET j == HexEnd(s, i) IN <<SubSeq(s, i, j - 1)>> \o Candidates(s, j)
   ELSE Candidates(s, i + 1)
 \* does the line hold an address the pattern accepts?
 LineHasIp(p, s) == LET cs == Candidates(s, 1) IN
-                   \E k \in DOMAIN cs : LET a == ParseIPv4(cs[k]) IN a.ok /\ IpMatch(p, a.a)
+                   \E k \in DOMAIN cs : LET a == ParseIP(cs[k]) IN a.ok /\ IpMatch(p, a.a)
 =============================================================================
